@@ -6,7 +6,7 @@ import sys
 import traceback
 
 from .callgraph import CallGraph
-from .model import AnalysisError, Program
+from .model import AnalysisError, PrivateAnchorMissing, Program
 from .report import Report
 
 PROPERTIES = [f'C{i:02d}' for i in range(1, 21)]
@@ -32,7 +32,10 @@ def run_property(pid, tier='quick', overlay=None, write=True, quiet=False, repla
     ctx = ctx or Ctx(overlay=overlay, tier=tier, root=root)
     ctx.tier = tier
     mod = importlib.import_module(f'copstat.rules.{pid.lower()}')
-    mod.run(ctx, rep)
+    try:
+        mod.run(ctx, rep)
+    except PrivateAnchorMissing as exc:
+        rep.private_missing('all remaining rules', exc)
     stats = ctx.prog.stats()
     res, tot = ctx.cg.resolution_rate()
     stats['calls_resolved'] = res
